@@ -3,9 +3,9 @@
 (K2) the real decision logic of arcs._point_within_gca_body (+ in_between, _decide_pole_latitude), executed on symbolic real
 (lon, lat) triples with the great-circle plane test as an assumption, against the exact lon/lat characterisation of a
 minor arc (generic arcs incl. those wrapping through lon = 0, meridian arcs, arcs through a pole).
-(NRA) the real extreme_gca_latitude on a fixed rational endpoint and a *stereographically parametrised* second endpoint
-(every unit vector is (2s, 2t, 1-s^2-t^2)/(1+s^2+t^2)): the interior candidate is the point of the great circle closest to
-the pole (its sine of latitude squared equals 1 - N_z^2/|N|^2, N = n1 x n2), taken iff it lies inside the arc.
+(data flow) the real extreme_gca_latitude with products/trig uninterpreted: which endpoint values reach the result, endpoint
+vs interior candidate selection; (nlsat) the stationarity identity of the interior candidate in polynomial arithmetic (the
+value-level 1-2 parameter formulations did not finish and were dropped).
 Outside (stated): whether float64 rounding keeps the plane test within MACHINE_EPSILON; gca_gca_intersection."""
 import math
 from fractions import Fraction as Fr
